@@ -420,6 +420,34 @@ pub fn render(doc: &A, deviations: &[(usize, usize)]) -> Rendered {
     Rendered { text, spans, entry, has_prolog, points: ch.points, labels: ch.labels }
 }
 
+/// windows-1252 (WHATWG index): the 27 characters that live in 0x80..=0x9F, in byte order (0 = the byte maps to the
+/// C1 control of the same number)
+pub const CP1252_HIGH: [u32; 32] = [
+    0x20AC, 0, 0x201A, 0x0192, 0x201E, 0x2026, 0x2020, 0x2021, 0x02C6, 0x2030, 0x0160, 0x2039, 0x0152, 0, 0x017D, 0, 0, 0x2018, 0x2019, 0x201C, 0x201D, 0x2022, 0x2013, 0x2014, 0x02DC, 0x2122, 0x0161, 0x203A,
+    0x0153, 0, 0x017E, 0x0178,
+];
+
+/// the character a windows-1252 byte denotes
+pub fn cp1252_char(b: u8) -> char {
+    if (0x80..=0x9F).contains(&b) && CP1252_HIGH[(b - 0x80) as usize] != 0 {
+        char::from_u32(CP1252_HIGH[(b - 0x80) as usize]).unwrap()
+    } else {
+        b as char
+    }
+}
+
+fn cp1252_byte(c: char) -> Option<u8> {
+    let u = c as u32;
+    if let Some(i) = CP1252_HIGH.iter().position(|x| *x == u && u != 0) {
+        return Some(0x80 + i as u8);
+    }
+    if u < 0x80 || (0xA0..=0xFF).contains(&u) {
+        Some(u as u8)
+    } else {
+        None
+    }
+}
+
 /// bytes for the byte-oriented entry points
 pub fn encode(text: &str, entry: Entry) -> Option<Vec<u8>> {
     match entry {
@@ -443,12 +471,13 @@ pub fn encode(text: &str, entry: Entry) -> Option<Vec<u8>> {
             }
             Some(v)
         }
-        Entry::BytesLatin1 | Entry::BytesWindows1252 => {
+        Entry::BytesLatin1 => {
             if !latin1_safe(text) {
                 return None;
             }
             Some(text.chars().map(|c| c as u32 as u8).collect())
         }
+        Entry::BytesWindows1252 => text.chars().map(cp1252_byte).collect(),
         _ => None,
     }
 }
